@@ -37,6 +37,8 @@ def spec_env():
         "cnt": lambda s, lo, hi, x: sum(1 for j in range(lo, hi) if s[j] == x), "ssum": lambda s, lo, hi: sum(s[lo:hi]),
         "same": lambda a, b, lo, hi: all(a[j] == b[j] for j in range(lo, hi)),
     }
+    env["dnav"] = lambda s, lo=0, hi=None: S.val4(s[lo:len(s) if hi is None else hi])
+    env["is_dna"] = lambda s, lo=0, hi=None: all(c in "ACGT" for c in s[lo:len(s) if hi is None else hi])
     for name in ("succ", "pred", "kmer", "val4", "code", "render", "vt_spec", "is_accessor", "live", "is_walk", "filter_spec", "revcomp"):
         env[name] = getattr(S, name)
     return env
